@@ -80,6 +80,28 @@ func (r *relayStream) MsgRecv(srpc.Message) error { return io.EOF }
 func (r *relayStream) CloseSend() error           { return nil }
 func (r *relayStream) Close() error               { return nil }
 
+// parkCtx is a context whose Done() parks the caller while armed: it holds a Send call right
+// before its select so that an ack and a cancellation can both be pending when it resumes.
+type parkCtx struct {
+	context.Context
+	mtx    sync.Mutex
+	armed  bool
+	parked chan struct{}
+	gate   chan struct{}
+}
+
+func (p *parkCtx) Done() <-chan struct{} {
+	p.mtx.Lock()
+	armed := p.armed
+	p.armed = false
+	p.mtx.Unlock()
+	if armed {
+		close(p.parked)
+		<-p.gate
+	}
+	return p.Context.Done()
+}
+
 type fakeRelay struct{ w *world }
 
 func (f *fakeRelay) SRPCClient() srpc.Client { return nil }
@@ -104,15 +126,15 @@ type injected struct {
 }
 
 type world struct {
-	e       *engine
-	mtx     sync.Mutex
-	log     []string
-	streams []*relayStream
-	inj     map[uint64]*injected // by message seqno (unique per scenario)
-	auto    string               // relay behaviour on a SendMsg request: "", "ack", "reopen-then-ack", "drop"
-	epoch   uint64
+	e          *engine
+	mtx        sync.Mutex
+	log        []string
+	streams    []*relayStream
+	inj        map[uint64]*injected // by message seqno (unique per scenario)
+	auto       string               // relay behaviour on a SendMsg request: "", "ack", "reopen-then-ack", "drop"
+	epoch      uint64
 	acksIssued map[uint64]bool
-	sent    map[uint64]bool // seqnos the client transmitted
+	sent       map[uint64]bool // seqnos the client transmitted
 }
 
 func (w *world) sink(line string) {
@@ -407,6 +429,71 @@ func (e *engine) scenario(kind string, n int) {
 		w.quiesce(500 * time.Microsecond)
 		startSend(3 * time.Second) // a later send must not be blocked
 		act("second send")
+	case "cancel-after-ack":
+		// the ack for m arrives while the caller of Send(m) is about to be cancelled: whichever
+		// way the race goes, a LATER Send must still wait for its own ack
+		w.auto = ""
+		open()
+		for i := 0; i < n; i++ {
+			inner, icancel := context.WithCancel(ctx)
+			pc := &parkCtx{Context: inner, armed: true, parked: make(chan struct{}), gate: make(chan struct{})}
+			sr := &sendRes{}
+			rmtx.Lock()
+			sends = append(sends, sr)
+			rmtx.Unlock()
+			before := map[uint64]bool{}
+			w.mtx.Lock()
+			for x := range w.sent {
+				before[x] = true
+			}
+			w.mtx.Unlock()
+			fin := make(chan struct{})
+			go func() {
+				m, err := ref.Send(pc, e.rng.Bytes(4))
+				rmtx.Lock()
+				sr.err, sr.done = err, true
+				if m != nil {
+					sr.seqno = m.GetSeqno()
+				}
+				rmtx.Unlock()
+				close(fin)
+			}()
+			select {
+			case <-pc.parked:
+			case <-time.After(2 * time.Second):
+			}
+			// the tracker transmits m on its own; ack it while the caller is parked
+			var q uint64
+			for k := 0; k < 2000 && q == 0; k++ {
+				w.mtx.Lock()
+				for x := range w.sent {
+					if !before[x] {
+						q = x
+					}
+				}
+				w.mtx.Unlock()
+				if q == 0 {
+					time.Sleep(100 * time.Microsecond)
+				}
+			}
+			if q != 0 {
+				w.respond(w.cur(), &signaling.SessionResponse{Body: &signaling.SessionResponse_AckMsg{AckMsg: q}})
+			}
+			w.quiesce(300 * time.Microsecond)
+			icancel()
+			close(pc.gate)
+			select {
+			case <-fin:
+			case <-time.After(2 * time.Second):
+			}
+			w.quiesce(300 * time.Microsecond)
+			// probe: never acknowledged by the relay, so it must not report success
+			startSend(15 * time.Millisecond)
+			time.Sleep(20 * time.Millisecond)
+			w.quiesce(300 * time.Microsecond)
+			// drop the probe at the relay so that the next round starts clean
+		}
+		act("rounds of: Send(m) parked before its select; relay acks m; caller cancelled; then a probe Send that the relay never acks")
 	case "replay":
 		// Known finding (format level): a message B signed for delivery to ANOTHER peer (or in an
 		// earlier session) carries no destination/session, so the relay can replay it to A.
@@ -568,10 +655,11 @@ func (e *engine) scenario(kind string, n int) {
 }
 
 func (e *engine) run() {
-	e.rep.Rule = "the real signaling client against a scripted relay: honest (open, ack, deliver), re-open while a send is in flight (F11 sentinel), malicious (third-party / tampered / claimed-sender / self-signed messages, unsolicited acks and clears, re-opens, closes, stream failures) with concurrent Send (incl. short deadlines = cancel) and Recv calls; every tracker critical section replayed on the Lean LTS; distinct = distinct schedule"
-	e.rep.Require("trace.honest", "trace.reopen-in-flight", "trace.malicious")
+	e.rep.Rule = "the real signaling client against a scripted relay: honest (open, ack, deliver), re-open while a send is in flight (F11 sentinel), ack racing the caller's cancellation followed by a never-acknowledged probe Send, malicious (third-party / tampered / claimed-sender / self-signed messages, unsolicited acks and clears, re-opens, closes, stream failures) with concurrent Send (incl. short deadlines = cancel) and Recv calls; every tracker critical section replayed on the Lean LTS; distinct = distinct schedule"
+	e.rep.Require("trace.honest", "trace.reopen-in-flight", "trace.malicious", "trace.cancel-after-ack")
 	e.rep.Extra["events"], e.rep.Extra["sends_ok"], e.rep.Extra["delivered"] = 0, 0, 0
 	e.scenario("reopen-in-flight", 1)
+	e.scenario("cancel-after-ack", 4)
 	if e.a.Prop == "C19" {
 		e.scenario("replay", 1)
 	}
